@@ -412,7 +412,7 @@ PIPELINES["C19"] = heap_pipeline("C19", quick=dict(depth=2, rand=250), thorough=
 
 
 def _c10(work, v, tier, seed):
-    heap_pipeline("C10", quick=dict(depth=1, rand=200), thorough=dict(depth=1, rand=3000), cli=None)(work, v, tier, seed)
+    heap_pipeline("C10", quick=dict(depth=1, rand=200), thorough=dict(depth=1, rand=3000))(work, v, tier, seed)
     # support (every admissible elementary outcome is observed) and seed replay on small instances
     trace = vf.drive(work, "heap", seed=seed, mode="C10sup", tier=tier)
     res = vf.tlc_trace(work, "Trace_Heap", trace)
